@@ -200,6 +200,22 @@ class _Sess:
 
 
 def run_plan(plan, trace=False):
+    try:
+        return _run_plan(plan, trace)
+    except (K.HarnessError, K.SimCrash):
+        raise
+    except Exception as e:  # noqa: BLE001 - set-up by pid 0 (library creation, master handles) must not fail
+        import traceback
+
+        res = RunResult()
+        site = traceback.extract_tb(e.__traceback__)[-1]
+        res.violate("setup-raises", f"C04|setup-raises|{type(e).__name__}",
+                    f"un-faulted set-up raised {e!r} at {site.filename.split('/')[-1]}:{site.name}")
+        res.digest = digest(("exc", repr(e)))
+        return res
+
+
+def _run_plan(plan, trace=False):
     res = RunResult()
     kern = K.Kernel(bufsize=plan["bufsize"])
     kern.max_events = 300000
